@@ -7,6 +7,9 @@ Correspondence: ops `dstate` (compute_dspeciesdt per entry, compute_dstatedt as 
 Oracle (independent of code and model): `determ_lib.oracle_rate`, the closed formula of the statement with exact
 rationals on the physical system the generator wrote down, against compute_dspeciesdt / compute_dstatedt /
 make_dxdtf / samples 0,1 of an Euler run; dimension and units system of every returned quantity.
+Edit-then-reuse of the space (`edited_job`): the same oracle and the same correspondence ops on the system object after in-place
+edits of `system.space` (keys prefixed `space-edit:`); the model reads the edited object field by field (`determ_lib.sys_json`),
+the oracle gets the physical system from the recipe of the edit.
 """
 import json
 from fractions import Fraction
@@ -34,7 +37,9 @@ RULE = ("random reaction networks (1-3 species, 0-3 reactions, orders 0-4 per si
         "reflecting/periodic axes, periodic axes of length 1 and 2 included, random environment maps) and graphs "
         "(heterogeneous volumes, surfaces, distances, isolated nodes; parallel edges and self-loops for the engine), units "
         "declared/inherited at every nesting level from all 11x10x10 systems, bare numbers and explicit unit strings, "
-        "random states, random output units; a case is one (system, state, entry) evaluation; non-trivial when the "
+        "random states, random output units; every system object, after it has been evaluated, is edited IN PLACE through the public "
+        "setters of the nested space objects (node volume / environment, edge surface / distance, grid cell volume / environment map / "
+        "boundary conditions, space units system; bare numbers, text and UnitValue in other units) and judged again; a case is one (system, state, entry) evaluation; non-trivial when the "
         "expected rate has at least one non-zero term; distinct by (system fingerprint, entry, path)")
 ASSUMPTIONS = [
     "IEEE-754 double arithmetic of CPython / the C++ engine is within 1e-9 (relative to the magnitude of the added terms) of exact arithmetic for these short computations",
@@ -152,7 +157,10 @@ def run_kinetics(ctx, jobs):
         chem = [int(v) for v in system.chemostats]
         base_case = {"kind": "kinetics", "desc": jb["desc"], "phys": phys_dump(phys), "state": jb["state"], "U": list(U),
                      "chem": [int(v) for v in system.chemostats]}
-        fp = fingerprint(jb["desc"])
+        pfx = jb.get("keypfx", "")
+        if jb.get("edits"):
+            base_case["edits"] = jb["edits"]
+        fp = job_fp(jb)
         # Lean Spec == Python oracle (exact)
         if m_spec is not None:
             ms = [rparse(v) for v in m_spec["ok"]]
@@ -177,7 +185,7 @@ def run_kinetics(ctx, jobs):
                 if not jb["parallel"]:
                     if py_has_no_terms(phys, i):
                         ctx.count("entries_without_any_term")
-                    check_entry(ctx, got, exp, mag, U, case, "kinetics:" + phys["space"]["kind"], "compute_dspeciesdt(species %d, cell %d)" % (s, i))
+                    check_entry(ctx, got, exp, mag, U, case, pfx + "kinetics:" + phys["space"]["kind"], "compute_dspeciesdt(species %d, cell %d)%s" % (s, i, edits_text(jb)))
                 else:
                     ctx.count("parallel_edges_python_skipped")
                 if m_free is not None and not model_entry_matches(got, m_free["ok"]["entries"][e], mag):
@@ -194,13 +202,13 @@ def run_kinetics(ctx, jobs):
         ctx.case((fp, "whole"), nontrivial=any(m != 0 for _, m in orc))
         if not jb["parallel"]:
             if whole[0] == "error":
-                ctx.violation("dstatedt:raises", "compute_dstatedt raised %s" % whole[1], case, impl=whole[1])
+                ctx.violation(pfx + "dstatedt:raises", "compute_dstatedt raised %s%s" % (whole[1], edits_text(jb)), case, impl=whole[1])
             else:
                 vals, dim, sysm = whole
                 for e in range(ns * n):
                     exp, mag = (Fraction(0), Fraction(0)) if chem[e] else orc[e]
-                    if not check_entry(ctx, (vals[e], dim, sysm), exp, mag, U, dict(case, e=e), "dstatedt:" + phys["space"]["kind"],
-                                       "compute_dstatedt entry %d" % e):
+                    if not check_entry(ctx, (vals[e], dim, sysm), exp, mag, U, dict(case, e=e), pfx + "dstatedt:" + phys["space"]["kind"],
+                                       "compute_dstatedt entry %d%s" % (e, edits_text(jb))):
                         break
         if m_chem is not None:
             mw = m_chem["ok"]["whole"]
@@ -238,6 +246,199 @@ def apply_reassignment(phys, system, rec):
     phys2 = copy.deepcopy(phys)
     phys2["reacs"][k][side] = [si] * len(phys2["reacs"][k][side])
     return phys2
+
+
+# ---------------------------------------------------------------------------------------------------------------------
+# edit-then-reuse of the SPACE: a system that has been built and evaluated is edited in place through the public setters
+# of the objects nested in `system.space` (node volume / environment, edge surface / distance, grid cell volume / environment
+# map / boundary conditions, the space's units system), then evaluated again.  "Every valid system" of the statement is the
+# system as it is when the rate is asked for; the recipes below carry the exact SI meaning of what was written, so that the
+# expected physical system is known independently of the object.
+# ---------------------------------------------------------------------------------------------------------------------
+GRAPH_EDITS = ["node-volume", "edge-surface", "node-environment", "node-volume", "edge-distance", "space-units", "node-volume-all"]
+GRID_EDITS = ["cell-volume", "cell-env", "boundary", "cell-volume", "space-units"]
+
+
+def _written_quantity(rng, nat, dim, owner_sys, cube=False):
+    """a new quantity of dimension `dim` worth about `nat` (in µm, s, molecule), written as a bare number in the owner's
+    units system, or as text / UnitValue in ANOTHER units system.  cube=True: `nat` is a cell edge and the quantity is its
+    cube (so that the edge stays rational).  Returns the JSON-able recipe with the exact SI value(s)."""
+    r = rng.random()
+    form = "bare" if r < 0.4 else ("text" if r < 0.7 else "unitvalue")
+    u = tuple(owner_sys) if form == "bare" else L.rand_sys(rng)
+    if cube:
+        hv = Fraction(L.nice_float(Fraction(nat) * L.si_factor(L.DEFAULT_SYS, L.D_LEN) / L.si_factor(u, L.D_LEN)))
+        v = float(hv ** 3)
+        rec = {"form": form, "value": v, "units": list(u), "si": rstr(Fraction(v) * L.si_factor(u, dim)), "edge_si": rstr(hv * L.si_factor(u, L.D_LEN))}
+    else:
+        v = L.nice_float(Fraction(nat) * L.si_factor(L.DEFAULT_SYS, dim) / L.si_factor(u, dim))
+        rec = {"form": form, "value": v, "units": list(u), "si": rstr(Fraction(v) * L.si_factor(u, dim))}
+    rec["dim"] = list(dim)
+    return rec
+
+
+def _written_arg(rec):
+    from strengths.units import UnitValue
+    if rec["form"] == "bare":
+        return rec["value"]
+    txt = L.units_text(tuple(rec["units"]), tuple(rec["dim"]))
+    if rec["form"] == "text":
+        return "%r %s" % (rec["value"], txt)
+    return UnitValue(rec["value"], txt)
+
+
+def pick_space_edit(rng, phys, system, which):
+    """a recipe for one in-place edit of `system.space` of the named kind (None when the system has nothing of that kind)"""
+    sp = system.space
+    n = phys["n"]
+    new_edge = lambda old: rng.choice([e for e in (Fraction(3, 8), Fraction(3, 4), Fraction(9, 8), Fraction(7, 4), Fraction(5, 2))  # noqa: E731
+                                       if e * L.si_factor(L.DEFAULT_SYS, L.D_LEN) != old])
+    if which in ("node-volume", "node-volume-all"):
+        nodes = list(range(n)) if which == "node-volume-all" else [rng.randrange(n)]
+        return {"edit": "node-volume", "nodes": nodes,
+                "to": [_written_quantity(rng, new_edge(phys["edge"][i]), L.D_VOL, L.sys_of(sp.nodes[i].units_system), cube=True) for i in nodes]}
+    if which == "node-environment":
+        if len(phys["envs"]) < 2:
+            return None
+        i = rng.randrange(n)
+        return {"edit": "node-environment", "node": i, "to": rng.choice([e for e in range(len(phys["envs"])) if e != phys["env"][i]]),
+                "as": rng.choice(["int", "int", "numpy", "float"])}
+    if which in ("edge-surface", "edge-distance"):
+        if not phys["space"]["edges"]:
+            return None
+        k = rng.randrange(len(phys["space"]["edges"]))
+        dim = L.D_SFC if which == "edge-surface" else L.D_LEN
+        return {"edit": which, "edge": k, "to": _written_quantity(rng, rng.choice([0.2, 0.6, 1.25, 3]), dim, L.sys_of(sp.edges[k].units_system))}
+    if which == "cell-volume":
+        return {"edit": "cell-volume", "to": _written_quantity(rng, new_edge(phys["edge"][0]), L.D_VOL, L.sys_of(sp.units_system), cube=True)}
+    if which == "cell-env":
+        if len(phys["envs"]) < 2:
+            return None
+        if rng.random() < 0.3:
+            return {"edit": "cell-env", "to": rng.choice([e for e in range(len(phys["envs"])) if [e] * n != phys["env"]])}
+        while True:
+            m = [rng.randrange(len(phys["envs"])) for _ in range(n)]
+            if m != phys["env"]:
+                return {"edit": "cell-env", "to": m}
+    if which == "boundary":
+        s = phys["space"]
+        axes = [ax for ax, ln in (("x", s["w"]), ("y", s["h"]), ("z", s["d"])) if ln >= 2] or ["x"]
+        flip = rng.choice(axes)
+        # set_boundary_conditions: axes that are not named become reflecting
+        new = {ax: (not s["p" + ax]) if ax == flip else (s["p" + ax] and rng.random() < 0.7) for ax in "xyz"}
+        d = {ax: "periodical" for ax in "xyz" if new[ax]}
+        for ax in "xyz":
+            if not new[ax] and rng.random() < 0.4:
+                d[ax] = "reflecting"
+        return {"edit": "boundary", "to": d}
+    if which == "space-units":
+        return {"edit": "space-units", "to": list(L.rand_sys(rng)), "as": rng.choice(["object", "dict"])}
+    return None
+
+
+def apply_space_edit(phys, system, rec):
+    """perform the edit on the real object (through the public setter, like a user would) and return the physical system it
+    denotes afterwards"""
+    import copy
+    sp = system.space
+    p2 = copy.deepcopy(phys)
+    kind = rec["edit"]
+    if kind == "node-volume":
+        for i, to in zip(rec["nodes"], rec["to"]):
+            sp.nodes[i].volume = _written_arg(to)
+            p2["vol"][i] = rparse(to["si"])
+            p2["edge"][i] = rparse(to["edge_si"])
+    elif kind == "node-environment":
+        v = rec["to"]
+        sp.nodes[rec["node"]].environment = {"int": v, "numpy": __import__("numpy").int64(v), "float": _builtin_float(v)}[rec["as"]]
+        p2["env"][rec["node"]] = v
+    elif kind in ("edge-surface", "edge-distance"):
+        k = rec["edge"]
+        setattr(sp.edges[k], "surface" if kind == "edge-surface" else "distance", _written_arg(rec["to"]))
+        a, b, s, d = p2["space"]["edges"][k]
+        p2["space"]["edges"][k] = (a, b, rparse(rec["to"]["si"]), d) if kind == "edge-surface" else (a, b, s, rparse(rec["to"]["si"]))
+    elif kind == "cell-volume":
+        sp.cell_vol = _written_arg(rec["to"])
+        p2["vol"] = [rparse(rec["to"]["si"])] * phys["n"]
+        p2["edge"] = [rparse(rec["to"]["edge_si"])] * phys["n"]
+    elif kind == "cell-env":
+        sp.cell_env = rec["to"]
+        p2["env"] = list(rec["to"]) if isinstance(rec["to"], list) else [rec["to"]] * phys["n"]
+    elif kind == "boundary":
+        sp.set_boundary_conditions(dict(rec["to"]))
+        for ax in "xyz":
+            p2["space"]["p" + ax] = rec["to"].get(ax) == "periodical"
+    elif kind == "space-units":
+        # quantities already stored carry their own units: the physical system is unchanged
+        sp.units_system = L.us_obj(tuple(rec["to"])) if rec["as"] == "object" else L.sysj(tuple(rec["to"]))
+    else:
+        raise ValueError("unknown space edit %r" % kind)
+    return p2
+
+
+def apply_edits(phys, system, edits):
+    for rec in edits or []:
+        phys = apply_space_edit(phys, system, rec)
+    return phys
+
+
+def edited_job(ctx, rng, jb, counter):
+    """the job's own system object (already evaluated by the kinetics functions, make_dxdtf and an Euler run), edited in
+    place; returns a new job describing the system AFTER the edits, or None"""
+    phys, system = jb["phys"], jb["system"]
+    menu = GRAPH_EDITS if phys["space"]["kind"] == "graph" else GRID_EDITS
+    k = counter[phys["space"]["kind"]]
+    counter[phys["space"]["kind"]] += 1
+    kinds = [menu[k % len(menu)]]
+    if rng.random() < 0.3:
+        kinds.append(rng.choice(menu))
+    edits, p2 = [], phys
+    for which in kinds:
+        rec = pick_space_edit(rng, p2, system, which)
+        if rec is None:
+            continue
+        try:
+            p2 = apply_space_edit(p2, system, rec)
+        except Exception as ex:  # noqa
+            ctx.violation("space-edit:raises", "the public setter for %s raised %s: %s" % (rec["edit"], type(ex).__name__, str(ex)[:200]),
+                          {"kind": "space-edit-setter", "desc": jb["desc"], "phys": phys_dump(phys), "edits": edits + [rec]}, impl=type(ex).__name__)
+            return None
+        edits.append(rec)
+        ctx.count("space_edit_" + rec["edit"])
+    if not edits:
+        return None
+    j2 = dict(jb, phys=p2, edits=edits, keypfx="space-edit:", parallel=L.has_parallel_edges(p2), reuse_script=False)
+    j2.pop("sysj", None)
+    j2.pop("xU", None)
+    return j2
+
+
+def edits_text(jb):
+    """for messages: how the system object was edited after it had been built and evaluated"""
+    if not jb.get("edits"):
+        return ""
+    out = []
+    for r in jb["edits"]:
+        to = r["to"]
+        if r["edit"] == "node-volume":
+            out.append("; ".join("space.nodes[%d].volume = %r" % (i, _written_arg(t)) for i, t in zip(r["nodes"], to)))
+        elif r["edit"] == "node-environment":
+            out.append("space.nodes[%d].environment = %r" % (r["node"], to))
+        elif r["edit"] in ("edge-surface", "edge-distance"):
+            out.append("space.edges[%d].%s = %r" % (r["edge"], r["edit"][5:], _written_arg(to)))
+        elif r["edit"] == "cell-volume":
+            out.append("space.cell_vol = %r" % (_written_arg(to),))
+        elif r["edit"] == "cell-env":
+            out.append("space.cell_env = %r" % (to,))
+        elif r["edit"] == "boundary":
+            out.append("space.set_boundary_conditions(%r)" % (to,))
+        else:
+            out.append("space.units_system = %r" % (to,))
+    return " [after the in-place edit(s) of the already evaluated system: " + "; ".join(out) + "]"
+
+
+def job_fp(jb):
+    return fingerprint(jb["desc"] if not jb.get("edits") else {"desc": jb["desc"], "edits": jb["edits"]})
 
 
 def check_dxdtf_values(ctx, f, xU, phys, chem, U, case, key, what, int64=False):
@@ -299,21 +500,24 @@ def run_dxdtf(ctx, jobs):
         chem = list(jb["exp_chem"]) if jb.get("exp_chem") is not None else [int(v) for v in system.chemostats]
         case = {"kind": "dxdtf", "desc": jb["desc"], "phys": phys_dump(phys), "U": list(U), "xU": jb["xU"], "chem": [int(v) for v in system.chemostats],
                 "exp_chem": chem}
+        pfx = jb.get("keypfx", "")
+        if jb.get("edits"):
+            case["edits"] = jb["edits"]
         try:
             f = system.make_dxdtf(L.us_obj(U))
             out = [float(v) for v in f(0.0, list(jb["xU"]))]
         except Exception as ex:  # noqa
             out = ("error", type(ex).__name__)
-        ctx.case((fingerprint(jb["desc"]), "dxdtf"), nontrivial=any(mg != 0 for _, mg in orc),
+        ctx.case((job_fp(jb), "dxdtf"), nontrivial=any(mg != 0 for _, mg in orc),
                  sample={"op": "make_dxdtf", "impl": out if out and out[0] != "error" else str(out), "spec": [float(r / fr) for r, _ in orc]})
         ctx.count("dxdtf")
         if out and out[0] == "error":
-            ctx.violation("dxdtf:raises", "make_dxdtf()(t, x) raised %s on a system of size 1" % out[1], case, impl=out[1])
+            ctx.violation(pfx + "dxdtf:raises", "make_dxdtf()(t, x) raised %s on a system of size 1%s" % (out[1], edits_text(jb)), case, impl=out[1])
         else:
             for s in range(ns):
                 exp, mag = (Fraction(0), Fraction(0)) if chem[s] else orc[s]
                 if not close(out[s], exp / fr, mag / fr, rel=TOL):
-                    ctx.violation("dxdtf:value", "make_dxdtf()(t,x)[%d] = %r (in %s), the rate law gives %r" % (s, out[s], U, float(exp / fr)),
+                    ctx.violation(pfx + "dxdtf:value", "make_dxdtf()(t,x)[%d] = %r (in %s), the rate law gives %r%s" % (s, out[s], U, float(exp / fr), edits_text(jb)),
                                   dict(case, s=s), impl=out[s], expected=rstr(exp / fr))
                     break
         if m is not None:
@@ -323,7 +527,7 @@ def run_dxdtf(ctx, jobs):
                 mv = [rparse(v) for v in m["ok"]]
                 if len(mv) != len(out) or not all(close(o, q, orc[s][1] / fr, rel=TOL) for s, (o, q) in enumerate(zip(out, mv))):
                     ctx.disagree("dxdtf", case, out, m["ok"])
-        if not (out and out[0] == "error"):
+        if not (out and out[0] == "error") and not jb.get("edits"):
             # ---- the returned closure is a function of (t, x): call it again, on other states, and integrate two steps
             mx = max([abs(v) for v in jb["xU"]] + [0.0])
             x2 = [v * 1.5 + 0.25 * mx for v in jb["xU"]]
@@ -353,7 +557,7 @@ def run_dxdtf(ctx, jobs):
                 rec = pick_reassignment(ctx.rng, phys, sys2)
                 phys2 = apply_reassignment(phys, sys2, rec)
                 case2 = dict(case, kind="reuse-dxdtf", reassign=rec)
-                ctx.case((fingerprint(jb["desc"]), "reuse-dxdtf", rec["reaction"], rec["side"]), nontrivial=True)
+                ctx.case((job_fp(jb), "reuse-dxdtf", rec["reaction"], rec["side"]), nontrivial=True)
                 ctx.count("reuse_dxdtf")
                 try:
                     f2 = sys2.make_dxdtf(L.us_obj(U))
@@ -429,23 +633,26 @@ def run_euler(ctx, jobs):
         ctx.count("time_step_" + forms["time_step"]["form"])
         case = {"kind": "euler", "desc": jb["desc"], "phys": phys_dump(phys), "state": jb["state"], "Uscript": list(Us), "dt_nat": jb["dt_nat"],
                 "time_forms": forms, "chem": [int(v) for v in system.chemostats]}
+        pfx = jb.get("keypfx", "")
+        if jb.get("edits"):
+            case["edits"] = jb["edits"]
         try:
             script, traj = euler_run(system, Us, forms, 2)
         except Exception as ex:  # noqa
-            ctx.violation("euler:raises", "Euler run raised %s: %s" % (type(ex).__name__, str(ex)[:200]), case, impl=type(ex).__name__)
+            ctx.violation(pfx + "euler:raises", "Euler run raised %s: %s" % (type(ex).__name__, str(ex)[:200]), case, impl=type(ex).__name__)
             continue
         ss = engine_io.samples(traj)
         tu, du = L.sys_of(traj.t.units.sys), L.sys_of(traj.data.units.sys)
         fq, ft = L.si_factor(du, L.D_QTY), L.si_factor(tu, L.D_TIME)
         chem = [int(v) for v in system.chemostats]
-        fp = fingerprint(jb["desc"])
+        fp = job_fp(jb)
         if len(ss) < 2:
-            ctx.violation("euler:samples", "an on_iteration Euler run of 2 iterations recorded %d samples" % len(ss), case, impl=len(ss))
+            ctx.violation(pfx + "euler:samples", "an on_iteration Euler run of 2 iterations recorded %d samples" % len(ss), case, impl=len(ss))
             continue
         import math
         bad = [(k, e) for k in range(len(ss)) for e, v in enumerate(ss[k][1]) if not math.isfinite(v)]
         if bad or not all(math.isfinite(s_[0]) for s_ in ss):
-            ctx.violation("euler:non-finite", "the Euler trajectory of a valid finite system holds a non-finite number (sample %d, entry %d: %r); "
+            ctx.violation(pfx + "euler:non-finite", "the Euler trajectory of a valid finite system holds a non-finite number (sample %d, entry %d: %r); "
                           "x0 + dt*rate(x0) is finite" % (bad[0][0], bad[0][1], ss[bad[0][0]][1][bad[0][1]]) if bad else "a sample time is not finite",
                           case, impl=[repr(v) for v in ss[min(1, len(ss) - 1)][1]][:12])
             continue
@@ -464,8 +671,8 @@ def run_euler(ctx, jobs):
                 exp = x0[e] if chem[e] else x0[e] + dt_si * orc[e][0]
                 mag = abs(x0[e]) + dt_si * orc[e][1]
                 if not close(float(x1[e]), exp, mag, rel=TOL):
-                    ctx.violation("euler-step:" + phys["space"]["kind"],
-                                  "Euler sample %d entry %d is %r, x0 + dt*rate(x0) = %r (SI molecules)" % (kstep + 1, e, float(x1[e]), float(exp)),
+                    ctx.violation(pfx + "euler-step:" + phys["space"]["kind"],
+                                  "Euler sample %d entry %d is %r, x0 + dt*rate(x0) = %r (SI molecules)%s" % (kstep + 1, e, float(x1[e]), float(exp), edits_text(jb)),
                                   dict(case, step=kstep, e=e), impl=float(x1[e]), expected=rstr(exp))
                     break
         # time stamps: t_k = k*dt
@@ -653,6 +860,15 @@ def process(ctx, jobs):
     run_kinetics(ctx, jobs)
     run_dxdtf(ctx, [jb for jb in jobs if jb["phys"]["n"] == 1])
     run_euler(ctx, jobs)
+    # ---- edit-then-reuse of the space: the SAME system objects (built, evaluated by every route above), edited in place
+    # through the public setters of the nested space objects, then judged again by the same oracle on the edited system
+    if not hasattr(ctx, "_edit_counter"):
+        ctx._edit_counter = {"grid": 0, "graph": 0}
+    ej = [j2 for j2 in (edited_job(ctx, ctx.rng, jb, ctx._edit_counter) for jb in jobs) if j2 is not None]
+    if ej:
+        run_kinetics(ctx, ej)
+        run_dxdtf(ctx, [jb for jb in ej if jb["phys"]["n"] == 1])
+        run_euler(ctx, ej)
 
 
 def replay(ctx, rec):
@@ -662,9 +878,27 @@ def replay(ctx, rec):
     if case.get("chem") is not None:
         system.chemostats = list(case["chem"])
     out = {"kind": case["kind"]}
+
+    def redo_edits():
+        """the recorded history: the built system is evaluated once, then edited in place (`phys` is the system AFTER the edits)"""
+        if case.get("edits"):
+            import strengths.kinetics as kin_
+            try:
+                kin_.compute_dstatedt(system)
+            except Exception:  # noqa
+                pass
+            apply_edits(phys, system, case["edits"])
+    if case["kind"] == "space-edit-setter":
+        try:
+            apply_edits(phys, system, case["edits"])
+            return True, out
+        except Exception as ex:  # noqa
+            out.update(impl=repr(ex))
+            return False, out
     if case["kind"] == "kinetics":
         st_ = case["state"]
         set_state(system, st_["vals"], tuple(st_["units"]), st_["as_unitarray"])
+        redo_edits()
         x = L.state_si(system.state)
         U = tuple(case["U"])
         orc = L.oracle_rate(phys, x)
@@ -721,6 +955,7 @@ def replay(ctx, rec):
         out.update(impl=[float(v) for v in x1], expected=[float(v) for v in exp])
         return ok, out
     if case["kind"] == "dxdtf":
+        redo_edits()
         U = tuple(case["U"])
         fq, fr = L.si_factor(U, L.D_QTY), L.si_factor(U, L.D_RATE)
         x_si = [Fraction(v) * fq for v in case["xU"]]
@@ -747,6 +982,7 @@ def replay(ctx, rec):
     if case["kind"] == "euler":
         st_ = case["state"]
         set_state(system, st_["vals"], tuple(st_["units"]), st_["as_unitarray"])
+        redo_edits()
         forms = case.get("time_forms") or rparse(case["dt_nat"])
         script, traj = euler_run(system, tuple(case["Uscript"]), forms, 2)
         ss = engine_io.samples(traj)
